@@ -68,6 +68,7 @@ def gen_series(r, tier='quick', **force):
     # per-file metadata patterns over (s,t,v)
     nkeys = r.randint(2, 6)
     pool = list(PAT_KEYS)
+    inst_desc = ordering == 'guess_file' and r.random() < 0.5
     if ordering in ('guess_vol', 'guess_file', 'none'):
         # keys of DicomStack.sort_guesses must not offer the guesser another grid than (s, t, v)
         pool = [k for k in pool if k not in ('InversionTime', 'AcquisitionNumber')]
@@ -132,7 +133,8 @@ def gen_series(r, tier='quick', **force):
                 if ordering == 'explicit_tv':
                     meta['FlipAngle'] = 15.0 + 10.0 * v
                 if ordering == 'guess_file':
-                    meta['InstanceNumber'] = 1 + s + S * (t + T * v)
+                    # acquisition order within a volume: bottom-up or top-down (instance numbers fall with the slice index)
+                    meta['InstanceNumber'] = 1 + ((S - 1 - s) if inst_desc else s) + S * (t + T * v)
                 if slice_t is not None:
                     st = slice_t[s]
                     if acq_pat == 'inconsistent' and (t + v) % 2 == 1:
